@@ -1558,6 +1558,17 @@ func (sc *serverConn) processFrameFromReader(res readFrameResult) bool {
 
 	switch ev := err.(type) {
 	case StreamError:
+		// A malformed request header block is rejected by the framer before
+		// processHeaders sees it, but the stream identifier is used up all
+		// the same: without this the stream stays "idle" and frames the
+		// client sent on it before it saw our RST_STREAM are answered with
+		// a connection error instead of being treated as frames on a closed
+		// stream (RFC 9113 sections 5.1 and 5.1.1).
+		if mh, ok := res.f.(*MetaHeadersFrame); ok && res.err != nil {
+			if id := mh.StreamID; id%2 == 1 && id > sc.maxClientStreamID {
+				sc.maxClientStreamID = id
+			}
+		}
 		sc.resetStream(ev)
 		return true
 	case goAwayFlowError:
